@@ -1890,3 +1890,36 @@ def docs_unconditional_rule(crate, prop, rule="C15.R5"):
                    b.file(), b.line())
     r.floor = 3
     return r
+
+
+def intersection_operand_rule(syn, prop, rule):
+    """`A & B | C` is `(A & B) | C`.  A type placed after ` & ` must therefore be atomic: an object, a name, or something in
+    parentheses.  `inline_flattened()` is parenthesised by contract for unions (C14.R6); `inline()` / `name()` of an arbitrary
+    type is not (an enum's inline() is `X | Y`, Option's name() is `T | null`)."""
+    r = Result(rule, "every operand the templates place after ` & ` is either assembled from inline_flattened() parts (parenthesised by contract), literally wrapped in `( )`, or an object literal; an arbitrary inline()/name() there lets `|` inside it escape the intersection")
+    sites = {}
+    n = 0
+    for fn in syn.fns_in("macros/src/types/"):
+        for e in templates(fn):
+            for lit, args in S.format_calls(e["tokens"]):
+                u = S.unquote(lit) if lit else None
+                if not u or "& {}" not in u and "&{}" not in u:
+                    continue
+                # index of each `{}` placeholder
+                ph = [m.start() for m in re.finditer(r"(?<!\{)\{\}(?!\})", u.replace("{{", "\0\0").replace("}}", "\1\1"))]
+                for i, pos in enumerate(ph):
+                    before = u[:pos].rstrip()
+                    if not before.endswith("&"):
+                        continue
+                    n += 1
+                    arg = " ".join(t for t in S.flat(args[i]) if isinstance(t, str)) if i < len(args) else "?"
+                    ok = arg in ("# flattened",)
+                    r.inst(fn=fn["qual"], literal=u, operand=arg, atomic=ok, where="%s:%s" % (fn["file"], e["line"]))
+                    if not ok:
+                        sites.setdefault((fn["qual"], arg), []).append((fn["file"], e["line"], u))
+    for (q, arg), lst in sorted(sites.items()):
+        r.fail(prop, "intersection-operand-unparenthesised %s %s x%d" % (q, arg.replace(" ", ""), len(lst)),
+               "`%s` interpolates %s after ` & ` without parentheses: when it is a union (an inlined enum payload, `Option<T>` by name, a `type = \"A | B\"` override) the result reads `{ tag } & A | B`, whose second arm has lost the tag" % (lst[0][2], arg),
+               lst[0][0], lst[0][1])
+    r.floor = 3
+    return r
